@@ -514,6 +514,7 @@ fn scripted(pl: &serde_json::Value) -> Outcome {
     let mut format = false;
     let mut generic = false;
     let mut hashed = false; // older/opts followed by a saving check
+    let mut map_deleted = false;
     let mut log = vec![];
     let empty = vec![];
     for st in pl["steps"].as_array().unwrap_or(&empty) {
@@ -536,6 +537,9 @@ fn scripted(pl: &serde_json::Value) -> Outcome {
             }
             "remove" => {
                 let rel = st["rel"].as_str().unwrap_or("");
+                if rel.ends_with(".sv.map") {
+                    map_deleted = true;
+                }
                 ws.remove(rel);
                 log.push(format!("rm {rel}"));
             }
@@ -575,6 +579,8 @@ fn scripted(pl: &serde_json::Value) -> Outcome {
                 if let Some(diff) = diff_trees(&cold_out, &warm_out, "fresh-cache", "cached") {
                     let sig = if hashed {
                         "output/check-stored-entry-trusted-by-build"
+                    } else if map_deleted {
+                        "output/deleted-map-not-regenerated"
                     } else if format {
                         "output/format-section-not-in-cache-key"
                     } else if generic {
@@ -593,6 +599,7 @@ fn scripted(pl: &serde_json::Value) -> Outcome {
                     format = false;
                     generic = false;
                     hashed = false;
+                    map_deleted = false;
                 }
             }
             _ => {}
